@@ -220,7 +220,7 @@ pub fn nd<T: Default>() -> T {
     T::default()
 }
 
-pod_val!(u8, u16, u32, u64, u128, [u8; 3], [u32; 3], [u64; 3]);
+pod_val!(u8, u16, u32, u64, u128, [u8; 3], [u32; 3], [u64; 3], Option<u32>);
 
 impl Val for () {
     type Seed = ();
@@ -296,6 +296,7 @@ pub trait TokVal: Val {
 impl TokVal for u8 { fn token(s: u8) -> Token { Token::U8(s) } fn any_token() -> Token { Token::U8(nd::<u8>()) } }
 impl TokVal for u16 { fn token(s: u16) -> Token { Token::U16(s) } fn any_token() -> Token { Token::U16(nd::<u16>()) } }
 impl TokVal for u32 { fn token(s: u32) -> Token { Token::U32(s) } fn any_token() -> Token { Token::U32(nd::<u32>()) } }
+impl TokVal for Option<u32> { fn token(s: Option<u32>) -> Token { Token::OptU32(s) } fn any_token() -> Token { Token::OptU32(nd::<Option<u32>>()) } }
 impl TokVal for u64 { fn token(s: u64) -> Token { Token::U64(s) } fn any_token() -> Token { Token::U64(nd::<u64>()) } }
 impl TokVal for Big { fn token(s: u64) -> Token { Token::U64(s) } fn any_token() -> Token { Token::U64(nd::<u64>()) } }
 impl serde::Serialize for Big {
